@@ -13,7 +13,7 @@ import threading
 import time
 
 VERIF = os.path.dirname(os.path.dirname(os.path.abspath(__file__)))
-CACHE = os.path.join(VERIF, ".cache")
+CACHE = os.environ.get("VERIF_CACHE") or os.path.join(VERIF, ".cache")
 CXX = "clang++"
 
 # build configurations (DESIGN.md §2)
